@@ -17,8 +17,8 @@ SPACES = [" ", "  ", "\t", "\n", "\r\n", " \n ", "\n\n"]
 
 
 def boundaries(text):
-    """Indices in `text` where something may be inserted between two tokens: not inside [...] and not on #define
-    lines (both are line-oriented by the statement), never inside a token."""
+    """Indices in `text` where something may be inserted between two tokens (also inside and between the brackets of
+    array declarators): not on #define lines (the preprocessor is line-oriented), never inside a token."""
     out = []
     pos = 0
     depth = 0
@@ -30,11 +30,7 @@ def boundaries(text):
             in_define = text[pos:].lstrip(" \t").startswith("#define")
         if "\n" in t:
             in_define = False
-        # the boundary between a field name and its first '[' is a token boundary outside the brackets; the
-        # bracket region itself (from the first '[' to the last ']' of the declarator) is line-oriented
-        prev_nonspace = next((x for x in reversed(toks[:i]) if not x.isspace()), "")
-        if not in_define and depth == 0 and i > 0 and not t.isspace() and pos > 0 and not (
-                t == "[" and prev_nonspace == "]"):
+        if not in_define and i > 0 and not t.isspace() and pos > 0:
             prev = toks[i - 1]
             kind = ("ws" if prev.isspace() else "tight") + ":" + (prev.strip() or "_")[-1:] + "|" + t[:1]
             out.append((pos, kind))
@@ -103,6 +99,8 @@ def decl_names(d):
         names = [n["name"]]
         if n["decl"] == "typedef2":
             names += ["_" + n["name"], n["name"] + "_alt"]
+        if n["decl"] in ("typedef3", "top2"):
+            names += [n["name"] + "_alt", n["name"] + "_alt2"]
         return names
     if k == "typedef":
         return [d["name"]]
@@ -204,6 +202,16 @@ def check_case(ctx, case, rng):
             for bk, ins in used:
                 ctx.cell("boundary:" + bk)
             compare(variant, "insertion:" + kind, used)
+    # every distinct kind of token boundary of this text gets one insertion of its own (the random picks above may
+    # miss the rare ones, e.g. the blank before the comma of a list of names)
+    by_kind = {}
+    for pos, bk in boundaries(text):
+        by_kind.setdefault(bk, []).append(pos)
+    for bk in sorted(by_kind):
+        pos = rng.choice(by_kind[bk])
+        ins = rng.choice([" ", "\t", "\n", " /* c */ ", "/**/ ", " "])
+        ctx.cell("boundary:" + bk)
+        compare(text[:pos] + ins + text[pos:], "insertion:per-boundary", [(bk, ins)])
     ro = reorder(case, rng)
     if ro is not None:
         parts, order = ro
@@ -268,6 +276,34 @@ def aliases(ctx, rng):
                 ctx.event("conflicting_redeclaration_rejected")
         except Exception as e:  # noqa: BLE001
             ctx.violation("alias", f"alias-workload-raises:{type(e).__name__}", {"text": text, "error": lib.exc_sig(e)})
+    # by-name alias chains follow a replaced target: nothing resolved earlier may be remembered
+    for i, (first, second) in enumerate((("uint64", "uint32"), ("uint16", "int24"), ("char", "uint8"))):
+        ctx.evaluation(("replace", first, second))
+        ctx.cell("alias-replace")
+        try:
+            cs = lib.cstruct()
+            cs.add_type("PV", first)
+            cs.add_type("H", "PV")
+            cs.add_type("HH", "H")
+            t1 = cs.resolve(first)
+            if cs.resolve("HH") is not t1 or cs.resolve("H") is not t1:
+                ctx.violation("alias", "by-name-alias-chain-resolves-to-another-type", {"first": first})
+            cs.load("struct first_use { H h; HH hh; PV p; };")
+            cs.add_type("PV", second, replace=True)
+            t2 = cs.resolve(second)
+            got = [cs.resolve(n) is t2 for n in ("PV", "H", "HH")] + [cs.H is t2]
+            cs.load("struct second_use { H h; HH hh; PV p; };")
+            if not all(got) or len(cs.second_use) != 3 * len(t2) or len(cs.first_use) != 3 * len(t1):
+                ctx.violation("alias", "alias-keeps-a-replaced-target", {"first": first, "second": second, "resolved": got,
+                                                                         "size": len(cs.second_use)})
+            cs.typedefs["PV"] = "nowhere_t"
+            try:
+                cs.resolve("HH")
+                ctx.violation("alias", "alias-of-an-unknown-target-still-resolves", {"first": first})
+            except ResolveError:
+                ctx.event("dangling_alias_rejected")
+        except Exception as e:  # noqa: BLE001
+            ctx.violation("alias", f"alias-replace-workload-raises:{type(e).__name__}", {"error": lib.exc_sig(e)})
     # re-declaring a built-in synonym (a string reference in the type table) for its own target is accepted,
     # for another target it is rejected; the same through the API
     for a, c in sorted(gen.INT_ALIASES.items()):
@@ -338,9 +374,59 @@ def aliases(ctx, rng):
             ctx.violation("alias", f"cyclic-alias-in-field-not-a-resolve-error:{type(e).__name__}", {"cycle": n})
 
 
+def keyword_like_fields(ctx):
+    """Fields whose name is a definition keyword of this library but an ordinary identifier in C (flag), or begins
+    like one, in every declarator form and spacing, followed by further definitions."""
+    for name in ("flag", "flags", "flag_", "enumx", "structx", "typedefx", "unionx"):
+        for ws in ("", " ", "\t", "\n", " /* c */ "):
+            text = (f"struct A {{ uint32 x:31; uint32 {name}{ws}:{ws}1; uint8 pad; }};\n"
+                    f"struct B {{ uint8 {name}{ws}[{ws}2{ws}]{ws}; uint16 {name}2{ws}; }};\n"
+                    f"flag F : uint8 {{ F1, F2 }};\nenum E : uint16 {{ E1 = 3 }};\nstruct C {{ F f; E e; B b; }};\n")
+            ctx.evaluation(("keyword-like-field", name, ws))
+            ctx.cell("keyword-like-field-names")
+            try:
+                cs = lib.load(text)
+                got = ([(f.name, f.bits) for f in cs.A.__fields__], [f.name for f in cs.B.__fields__], len(cs.A), len(cs.B),
+                       len(cs.C), int(cs.F.F2.value), int(cs.E.E1.value))
+                want = ([("x", 31), (name, 1), ("pad", None)], [name, name + "2"], 5, 4, 7, 2, 3)
+                if got != want:
+                    ctx.violation("names", "keyword-like-field-name-changes-the-definitions",
+                                  {"text": text, "got": repr(got), "want": repr(want)})
+            except Exception as e:  # noqa: BLE001
+                ctx.violation("names", f"keyword-like-field-name-rejected:{type(e).__name__}",
+                              {"text": text, "error": lib.exc_sig(e)})
+
+
+def string_constants(ctx):
+    """A quoted #define value is a string whatever it spells and wherever it stands relative to other constants."""
+    import itertools
+
+    lines = ['#define a 1', '#define c "a"', '#define d "a + 1"', '#define e "1/0"', '#define f "7"', '#define g (a + 2)',
+             "#define h 'a'"]
+    want = {"a": 1, "c": "a", "d": "a + 1", "e": "1/0", "f": "7", "g": 3, "h": "a"}
+    for perm in itertools.islice(itertools.permutations(lines), 0, 5040, 97):
+        if perm.index('#define a 1') > perm.index('#define g (a + 2)'):
+            continue      # g refers to a
+        text = "\n".join(perm) + "\nstruct T { uint8 x[g]; };\n"
+        ctx.evaluation(("string-constants", text))
+        ctx.cell("string-constants")
+        try:
+            cs = lib.load(text)
+            got = {k: cs.consts.get(k) for k in want}
+            if got != want or len(cs.T) != 3:
+                ctx.violation("consts", "string-constant-value-depends-on-other-definitions",
+                              {"text": text, "got": repr(got), "want": repr(want)})
+        except Exception as e:  # noqa: BLE001
+            ctx.violation("consts", f"string-constant-rejected:{type(e).__name__}", {"text": text, "error": lib.exc_sig(e)})
+
+
 def run(ctx):
     if ctx.shard == 0:
         aliases(ctx, ctx.rng("aliases"))
+    if ctx.shard == 2:
+        string_constants(ctx)
+    if ctx.shard == 1:
+        keyword_like_fields(ctx)
     for i in range(N_CASES[ctx.tier]):
         if ctx.out_of_time():
             break
@@ -358,6 +444,8 @@ def replay(ctx, detail):
     cfgd = detail.get("cfg")
     if not cfgd or "variant" not in detail:
         aliases(ctx, ctx.rng("aliases"))
+        keyword_like_fields(ctx)
+        string_constants(ctx)
         return
     try:
         cs = lib.cstruct(endian=cfgd["endian"])
